@@ -100,6 +100,20 @@ def check_casts(ctx, B, rule, include_float=True, reviewed=None):
         else:
             ctx.bad(rule, inst, 'lossy cast %s -> %s of %s: value range [%s, %s] does not fit and no dominating '
                     'guard mentions the value' % (rv['from'], rv['to'], describe(B, c), rng[0], rng[1]), where, key)
+    # a narrowing written as a checked conversion is an instance of the rule too (one that holds by construction):
+    # replacing `x as u8` behind a guard by `u8::try_from(x)` must not look like a site that went missing
+    import re as _re
+    for bb, t in B.calls():
+        nm = callee_of(t)[1] or callee_of(t)[0] or ''
+        m_ = _re.search(r'TryFrom<(\w+)> for (\w+)>::try_from$', nm) or _re.search(r'TryInto<(\w+)> for (\w+)>::try_into$', nm)
+        if not m_ or not t['args']:
+            continue
+        fr_, to_ = (m_.group(1), m_.group(2)) if 'TryFrom' in nm else (m_.group(2), m_.group(1))
+        if ty_range(fr_) is None or ty_range(to_) is None:
+            continue
+        n += 1
+        inst = uniq_key(seen, '%s:%s(%s->%s checked)' % (B.path, describe(B, canon(B, t['args'][0])), fr_, to_))
+        ctx.ok(rule, inst, 'checked conversion: a value that does not fit is an error, not a different number', ctx.where(B, bb))
     return n
 
 
@@ -312,9 +326,54 @@ def text_may_contain(pieces, needle):
 def bodies_of_fn(P, fn_path):
     """the body of a function and of every closure / async block nested in it"""
     out = []
-    for p, b in P.F.bodies.items():
-        if (p == fn_path or p.startswith(fn_path + '::{')) and b['kind'] in ('Fn', 'AssocFn', 'Closure', 'SyntheticCoroutineBody', 'InlineConst'):
-            out.append(P.B(p))
+    roots, seen = [fn_path], set()
+    while roots:
+        fp = roots.pop()
+        if fp in seen:
+            continue
+        seen.add(fp)
+        for p, b in P.F.bodies.items():
+            if (p == fp or p.startswith(fp + '::{')) and b['kind'] in ('Fn', 'AssocFn', 'Closure', 'SyntheticCoroutineBody', 'InlineConst'):
+                out.append(P.B(p))
+                # a function that is not part of the reviewed tree and is handed over by name (`.filter_map(Self::helper)`) plays the part of a closure
+                for q in _fn_items(b):
+                    if q in _new_fns(P.F) and q not in seen:
+                        roots.append(q)
+    return out
+
+
+def _new_fns(F):
+    s = getattr(F, '_new_fn_set', None)
+    if s is None:
+        s = F._new_fn_set = set(getattr(F, 'inlined', ()) or ())
+    return s
+
+
+def _fn_items(b):
+    """paths of functions mentioned as values (not called) in a body"""
+    out = getattr(b, '_fn_items', None) if not isinstance(b, dict) else b.get('_fn_items')
+    if out is not None:
+        return out
+    out = []
+
+    def walk(x):
+        if isinstance(x, dict):
+            if x.get('k') == 'c' and x.get('fn'):
+                out.append(x['fn'])
+            for v in x.values():
+                walk(v)
+        elif isinstance(x, list):
+            for v in x:
+                walk(v)
+    for blk in b['blocks']:
+        for st in blk['s']:
+            walk(st)
+        t = blk['t']
+        if t['k'] == 'call':
+            walk(t['args'])        # the callee itself is not a value
+        else:
+            walk({k: v for k, v in t.items() if k not in ('f',)})
+    b['_fn_items'] = out
     return out
 
 
@@ -642,6 +701,8 @@ def discharge(B, R, site):
         ra = R.range_of(need[1], bb)
         if ra[0] > 0 or ra[1] < 0:
             return 'ok', 'divisor is non-zero'
+        if R.nonzero(need[1], bb):
+            return 'ok', 'divisor is non-zero: a comparison with zero on every path here excludes it'
         return ('undecided' if ment(canon(B, need[1])) else 'bad'), 'divisor may be zero'
     if k == 'unwrap':
         t = need[1]
